@@ -870,10 +870,41 @@ class Atoms:
         """A short random string over a delimiter-heavy alphabet (input-dimension sampling)."""
         return "".join(rng.choice(self.FUZZ_ALPHABET) for _ in range(rng.randint(lo, hi)))
 
+    @staticmethod
+    def mutate_text(rng, t):
+        """One random, meaning-preserving-looking transformation of an atom: case changes, a compatibility
+        (fullwidth) spelling of one character, an invisible character, a percent-escape, a trailing dot.
+        Input-dimension sampling that does not depend on somebody having thought of the family."""
+        if not t:
+            return t
+        k = rng.randrange(9)
+        i = rng.randrange(len(t))
+        c = t[i]
+        if k == 0:
+            return t.upper()
+        if k == 1:
+            return t.swapcase()
+        if k == 2:
+            return ".".join(p.capitalize() if rng.random() < 0.5 else p.upper() for p in t.split("."))
+        if k == 3 and 0x21 <= ord(c) <= 0x7E:
+            return t[:i] + chr(ord(c) + 0xFEE0) + t[i + 1:]  # fullwidth form of one ASCII character
+        if k == 4:
+            return t[:i] + rng.choice(["\u200d", "\u00ad", "\u200b", "\u2060", "\u0301"]) + t[i:]
+        if k == 5 and ord(c) < 0x80:
+            return t[:i] + "%%%02X" % ord(c) + t[i + 1:]
+        if k == 6 and ord(c) < 0x80:
+            return t[:i] + "%%%02x" % ord(c) + t[i + 1:]
+        if k == 7:
+            return t + "."
+        return t[:i] + c.upper() + t[i + 1:]
+
     def host(self, rng):
         if rng.random() < self.hostile:
-            if rng.random() < 0.25:
+            r = rng.random()
+            if r < 0.2:
                 return self.fuzz(rng)
+            if r < 0.45:
+                return self.mutate_text(rng, rng.choice(self.hosts))
             return rng.choice(self.bad_hosts)
         return rng.choice(self.hosts)
 
@@ -895,18 +926,25 @@ class Atoms:
         elif r < 0.4:
             s = h + ":"
         r = rng.random()
+        u = rng.choice(self.users)
+        if rng.random() < self.hostile * 0.3:
+            u = self.mutate_text(rng, u)
         if r < 0.2:
-            s = rng.choice(self.users) + "@" + s
+            s = u + "@" + s
         elif r < 0.4:
-            s = rng.choice(self.users) + ":" + rng.choice(self.passwords) + "@" + s
+            s = u + ":" + rng.choice(self.passwords) + "@" + s
         return s
 
     def compose(self, rng):
         sch = rng.choice(self.schemes)
         r = rng.random()
+        if sch and rng.random() < self.hostile * 0.2:
+            sch = self.mutate_text(rng, sch)
         if r < 0.75:
             s = (sch + ":" if sch else "") + "//" + self.authority(rng)
             p = rng.choice(self.paths)
+            if rng.random() < self.hostile * 0.2:
+                p = self.mutate_text(rng, p)
             if p and not p.startswith("/") and rng.random() < 0.8:
                 p = "/" + p
             s += p
